@@ -161,6 +161,12 @@ impl Campaign for C20c {
     fn uncovered(&self) -> Vec<String> {
         vec!["removal of the UNIX socket file (std::fs::remove_file and the real UnixListener are behind the transport stub)".into()]
     }
+    fn extra_assumptions(&self) -> Vec<String> {
+        vec![
+            "the idle period of surplus workers is the 5 s of src/util/task_pool.rs: live threads are counted 5.001 virtual s after the last activity".into(),
+            "'within a short bounded time' is read as: one virtual second after drop(server) returned (and drop itself takes at most one)".into(),
+        ]
+    }
     fn generate(&self, rng: &mut Rng, index: u64, tier: Tier) -> Scenario {
         let mut sc = Scenario::new();
         let mut k = rng.sub("knobs");
@@ -216,6 +222,8 @@ impl Campaign for C20c {
             sc.driver = vec![
                 DriverStep::SleepUntil(t_drop),
                 DriverStep::DropServer,
+                // "within a short bounded time": one virtual second is allowed for the accept loop to notice
+                DriverStep::Sleep(SEC),
                 DriverStep::Settle,
                 DriverStep::Connect("after_drop".into()),
                 DriverStep::Quiesce,
@@ -285,11 +293,11 @@ impl Campaign for C20c {
                 }
             }
         }
-        if !sc.knobs.racy_time && drop_t1 > drop_t0 {
+        if !sc.knobs.racy_time && drop_t1 > drop_t0 + SEC {
             v.violations.push(Violation {
                 clause: "C20.drop_is_prompt".into(),
                 signature: "dropping the server took virtual time".into(),
-                detail: format!("drop(server) took {} ns of virtual time", drop_t1 - drop_t0),
+                detail: format!("drop(server) blocked for {} ns of virtual time (more than the second allowed)", drop_t1 - drop_t0),
             });
         }
         // answers after the drop reach the client
